@@ -191,9 +191,14 @@ class NumberedObjectCollection(ABC):
         :param delete: the object to delete
         :type delete: Numbered_MCNP_Object
         """
-        self.__num_cache.pop(delete.number, None)
-        self._objects.remove(delete)
-        self.__evict(delete)
+        # the member that leaves is the first one that equals ``delete``; it need not be
+        # ``delete`` itself (Surface and Material compare by value): the cache entries to
+        # drop are the ones of the member that is actually taken out
+        idx = self._objects.index(delete)
+        obj = self._objects[idx]
+        self.__num_cache.pop(obj.number, None)
+        del self._objects[idx]
+        self.__evict(obj)
 
     def __iter__(self):
         self._iter = self._objects.__iter__()
